@@ -661,6 +661,10 @@ func fkGen(prop string) func(r *Rng, i int, tier string) any {
 		}
 		if r.Chance(18) {
 			in.FailAt = r.Intn(2 * len(in.History))
+			if r.Chance(35) {
+				// one of the first handler calls: e.g. the New of an inclusive LIB block, whose Irreversible follows at once
+				in.FailAt = r.Intn(3)
+			}
 		}
 		if r.Chance(3) && len(in.History) > 2 {
 			// a self-parent block
@@ -669,6 +673,31 @@ func fkGen(prop string) func(r *Rng, i int, tier string) any {
 			in.Shape += "/selfparent"
 		}
 		return in
+	}
+}
+
+// fkCorpus: fixed histories that always run first
+func fkCorpus(prop string) func() []any {
+	return func() []any {
+		lib := fkRef{ID: 100, Num: 4}
+		root := fkBlock{ID: 100, Num: 4, Parent: 99, Lib: 3}
+		a := fkBlock{ID: 101, Num: 5, Parent: 100, Lib: 4}
+		b := fkBlock{ID: 102, Num: 6, Parent: 101, Lib: 4}
+		var out []any
+		// the handler fails on the very first call; with an inclusive LIB that is the New of the LIB block, whose
+		// Irreversible notification must not follow
+		for _, f := range []int{51, 3} {
+			for _, at := range []int{0, 1} {
+				out = append(out, &fkInput{Prop: prop, Mode: "incl", LIB: lib, Kept: 2, Filter: f, FailAt: at,
+					History: []fkBlock{root, a, b}, Lookups: prop == "C18", Shape: "incl/corpus-fail-first"})
+			}
+		}
+		// hold-until-LIB discovery starting on the first streamable block
+		g := fkBlock{ID: 200, Num: 1, Parent: 199, Lib: 0}
+		g2 := fkBlock{ID: 201, Num: 2, Parent: 200, Lib: 1}
+		out = append(out, &fkInput{Prop: prop, Mode: "disc", First: 1, Kept: 1, Filter: 51, FailAt: 0,
+			History: []fkBlock{g, g2}, Lookups: prop == "C18", Shape: "disc/corpus-fail-first"})
+		return out
 	}
 }
 
@@ -711,6 +740,6 @@ func fkExec(prop string) func(raw json.RawMessage) (*Case, error) {
 
 func init() {
 	for _, p := range []string{"C01", "C02", "C03", "C04", "C18"} {
-		props[p] = &Prop{Gen: fkGen(p), Exec: fkExec(p)}
+		props[p] = &Prop{Gen: fkGen(p), Exec: fkExec(p), Corpus: fkCorpus(p)}
 	}
 }
